@@ -46,8 +46,25 @@ pub const EXS: [ExchangeId; 4] = [
     ExchangeId::Okx,
 ];
 
+thread_local! {
+    /// days added to the simulation epoch on this thread (0 = 2024-01-01)
+    static EPOCH_SHIFT_DAYS: std::cell::Cell<i64> = const { std::cell::Cell::new(0) };
+}
+
+/// Moves the simulation epoch on this thread until dropped (e.g. far into the future, so that every
+/// simulated timestamp lies after the machine's real clock).
+pub struct EpochGuard(i64);
+pub fn set_epoch_shift_days(days: i64) -> EpochGuard {
+    EpochGuard(EPOCH_SHIFT_DAYS.with(|c| c.replace(days)))
+}
+impl Drop for EpochGuard {
+    fn drop(&mut self) {
+        EPOCH_SHIFT_DAYS.with(|c| c.set(self.0));
+    }
+}
+
 pub fn epoch() -> DateTime<Utc> {
-    Utc.with_ymd_and_hms(2024, 1, 1, 0, 0, 0).unwrap()
+    Utc.with_ymd_and_hms(2024, 1, 1, 0, 0, 0).unwrap() + chrono::TimeDelta::days(EPOCH_SHIFT_DAYS.with(|c| c.get()))
 }
 
 thread_local! {
